@@ -183,6 +183,13 @@ func genStream(rng *prng.R, o streamOpts) []srcCmd {
 			out[len(out)-1].InTx = true
 			inTx--
 			if inTx == 0 {
+				if len(o.DBs) > 1 && rng.Chance(1, 4) {
+					// ... and the switch may be the transaction's last step: SELECT directly followed by EXEC
+					if db := o.DBs[rng.Intn(len(o.DBs))]; db != cur {
+						sel(db)
+						out[len(out)-1].InTx = true
+					}
+				}
 				add("exec")
 			}
 		}
